@@ -85,7 +85,24 @@ type Axiom struct {
 	File  string
 }
 
+type TypeInv struct {
+	Pkg    string
+	Type   string // "*T" or "T" (package-relative)
+	Clause *Clause
+}
+
+type ImmutableDecl struct {
+	Pkg          string
+	Struct       string
+	Fields       []string // "*" = all
+	Constructors []string // function keys (package-relative) allowed to assign them
+	File         string
+	Line         int
+}
+
 type Contracts struct {
+	TypeInvs   []*TypeInv
+	Immutables []*ImmutableDecl
 	Funcs  map[string]*FuncContract
 	Specs  map[string]*SpecFunc
 	Lemmas []*Lemma
@@ -103,7 +120,7 @@ func newContracts() *Contracts {
 	return &Contracts{Funcs: map[string]*FuncContract{}, Specs: map[string]*SpecFunc{}, Ifaces: map[string]*FuncContract{}}
 }
 
-var keywordRe = regexp.MustCompile(`^(func|iface|spec|ufunc|axiom|lemma|requires|ensures|modifies|loop|inline|extern|pure|global|fresh|panicok|callback)\b`)
+var keywordRe = regexp.MustCompile(`^(func|iface|spec|ufunc|axiom|lemma|requires|ensures|modifies|loop|inline|extern|pure|global|fresh|panicok|callback|typeinv|immutable)\b`)
 
 // loadContractFile parses one file; pkgPath is "" for /verif/specs files (full keys).
 func (C *Contracts) loadContractFile(path, pkgPath string) error {
@@ -181,6 +198,33 @@ func (C *Contracts) loadContractFile(path, pkgPath string) error {
 				return fail(err)
 			}
 			C.Lemmas = append(C.Lemmas, &Lemma{Pkg: pkgPath, Name: strings.TrimSpace(rest[:i]), Expr: e, Src: strings.TrimSpace(rest[i+1:]), File: path, Line: it.line})
+		case "typeinv":
+			// typeinv *T [label] expr over `self`
+			f := strings.Fields(rest)
+			if len(f) < 2 {
+				return fail(fmt.Errorf("typeinv <type> [label] expr"))
+			}
+			lab, src := splitLabel(strings.TrimSpace(strings.TrimPrefix(rest, f[0])))
+			e, err := parseExpr(src)
+			if err != nil {
+				return fail(err)
+			}
+			C.TypeInvs = append(C.TypeInvs, &TypeInv{Pkg: pkgPath, Type: f[0], Clause: &Clause{Pkg: pkgPath, Kind: "typeinv", Label: lab, Expr: e, Src: src, File: path, Line: it.line}})
+		case "immutable":
+			// immutable Struct: f1, f2 | * ; by ctor1, ctor2
+			parts := strings.SplitN(rest, ";", 2)
+			hd := strings.SplitN(parts[0], ":", 2)
+			if len(hd) != 2 || len(parts) != 2 || !strings.HasPrefix(strings.TrimSpace(parts[1]), "by ") {
+				return fail(fmt.Errorf("immutable Struct: f1, f2 ; by ctor1, ctor2"))
+			}
+			d := &ImmutableDecl{Pkg: pkgPath, Struct: strings.TrimSpace(hd[0]), File: path, Line: it.line}
+			for _, x := range strings.Split(hd[1], ",") {
+				d.Fields = append(d.Fields, strings.TrimSpace(x))
+			}
+			for _, x := range strings.Split(strings.TrimPrefix(strings.TrimSpace(parts[1]), "by "), ",") {
+				d.Constructors = append(d.Constructors, normalizeFuncKey(strings.TrimSpace(x), pkgPath))
+			}
+			C.Immutables = append(C.Immutables, d)
 		case "global":
 			lab, src := splitLabel(rest)
 			e, err := parseExpr(src)
@@ -296,6 +340,9 @@ func normalizeFuncKey(s, pkgPath string) string {
 	s = strings.TrimSpace(s)
 	if pkgPath == "" {
 		return s
+	}
+	if strings.HasPrefix(s, "field:") {
+		return "field:" + pkgPath + "." + strings.TrimPrefix(s, "field:")
 	}
 	suffix := ""
 	if i := strings.Index(s, "$"); i >= 0 {
